@@ -58,14 +58,15 @@ Theorem C15_never : forall cfg f ds st,
      (exists tn meta k', In (tn, meta) (s_tmeta st) /\ In k' (map fst meta) /\ k = trans_key tn k')).
 Proof. exact never. Qed.
 
-(** With the default rules (as they are in the source now): no pixel data, overlay data, colour table data and no
+(** With the default rules (as they are in the source now): no pixel data (PixelData, FloatPixelData,
+    DoubleFloatPixelData), overlay data, colour table data and no
     private element among the standard entries.  The constants are written out: an edit of a rule breaks this proof. *)
 Theorem C15_never_default : forall cfg f ds st,
   c_rules cfg = default_ignore_rules ->
   run (S f) cfg ds = Ok st ->
   forall x, In x (s_std st) ->
     let t := std_tag x in
-    t <> (0x7fe0, 0x0010) /\
+    ~ (fst t = 0x7fe0 /\ In (snd t) [0x0008; 0x0009; 0x0010]) /\
     ~ (N.land (fst t) 0xff00 = 0x6000 /\ snd t = 0x3000) /\
     ~ (fst t = 0x0028 /\ In (snd t) [0x1201; 0x1202; 0x1203; 0x1221; 0x1222; 0x1223]) /\
     (fst t) mod 2 <> 1.
